@@ -316,7 +316,7 @@ func retryDecision(c *Ctx, aspects map[string]bool) {
 	fn := info.Slots["OnFailure"]
 	name, pos := c.fn(fn), c.P.FuncPos(fn)
 	ee := c.NewExecEval(info, EvalConfig{Inline: func(callee *ssa.Function, depth int) bool {
-		return callee.Name() == "allowsRetries"
+		return canonName(callee) == "allowsRetries"
 	}})
 	ev := ee.Ev
 	exec := ee.Sym("exec", fn.Params[1].Type())
